@@ -295,7 +295,7 @@ Proof.
   intros Hok. unfold assign_inst.
   destruct (resolve w ins n) as [t|]; [|exact Hok].
   destruct (assigned_value t content scalar (w_next w)) as [v nx].
-  destruct (hids ins t n) as [|h hs].
+  destruct (hids w ins t n) as [|h hs].
   + cbn [fst]. apply calls_ok_mono; [exact Hok | intros m; apply aset_mono].
   + destruct (alookup n (i_dict ins)) as [ov|] eqn:Ed; cbn [fst].
     * apply calls_ok_mono; [exact Hok | intros m; apply aset_mono].
@@ -326,8 +326,8 @@ Proof.
   assert (Hn : alookup n (i_dict ins1) = None) by (subst ins1; cbn [i_dict]; rewrite alookup_aremove, Z.eqb_refl; reflexivity).
   replace (resolve w ins n) with (resolve w ins1 n) by reflexivity.
   destruct (resolve w ins1 n) as [t|]; [|exact H1].
-  replace (hids ins t n) with (hids ins1 t n) by reflexivity.
-  destruct (hids ins1 t n) as [|h hs]; [exact H1|].
+  replace (hids w ins t n) with (hids w ins1 t n) by reflexivity.
+  destruct (hids w ins1 t n) as [|h hs]; [exact H1|].
   destruct (materialise_calls_ok w ins1 n t H1 Hn) as (H2 & _ & _).
   destruct (materialise w ins1 n t) as [[ins2 v] nx]. cbn [fst] in *.
   apply calls_ok_mono; [exact H2 | auto].
@@ -559,7 +559,7 @@ Section Alloc.
     assert (Hd' : below nx (dict_oids (aset n v (i_dict ins)))).
     { apply below_dict_aset; [eapply below_weaken; eassumption | exact Hv]. }
     assert (Hi' : below nx (itrait_oids (i_itraits ins))) by (eapply below_weaken; eassumption).
-    destruct (hids ins t n) as [|h hs].
+    destruct (hids w ins t n) as [|h hs].
     + split; [exact H1|]. rewrite inst_oids_split. apply below_app. split; assumption.
     + destruct (alookup n (i_dict ins)) as [ov|];
         (split; [exact H1|]; rewrite inst_oids_split; cbn [i_dict i_itraits]; apply below_app; split; [exact Hd'|];
@@ -589,8 +589,8 @@ Section Alloc.
     { split; [lia|]. rewrite inst_oids_split. apply below_app. split; [exact Hd1 | exact Hi]. }
     replace (resolve w ins n) with (resolve w ins1 n) by reflexivity.
     destruct (resolve w ins1 n) as [t|] eqn:Er; [|exact H1].
-    replace (hids ins t n) with (hids ins1 t n) by reflexivity.
-    destruct (hids ins1 t n) as [|h hs]; [exact H1|].
+    replace (hids w ins t n) with (hids w ins1 t n) by reflexivity.
+    destruct (hids w ins1 t n) as [|h hs]; [exact H1|].
     pose proof (materialise_below ins1 n t Hd1) as H. destruct (materialise w ins1 n t) as [[ins2 v] nx].
     destruct H as (Hle & H2 & H3 & _). split; [exact Hle|]. rewrite inst_oids_split. cbn [i_dict i_itraits].
     apply below_app. split; [exact H2|].
@@ -619,7 +619,7 @@ Section Alloc.
       apply assign_inst_below; assumption.
     - (* Mutate *)
       assert (Hfix : forall v its b, w_next w <= b -> below b (itrait_oids its) ->
-                                     below b (itrait_oids (any_fix ins n v (items_fix w ins n v its)))).
+                                     below b (itrait_oids (any_fix w ins n v (items_fix w ins n v its)))).
       { intros v its b Hle Hb.
         assert (H1 : below b (itrait_oids (items_fix w ins n v its))).
         { unfold items_fix. destruct (_ && _); [|exact Hb].
@@ -627,7 +627,9 @@ Section Alloc.
           apply (fire_below _ ins b Hle). apply below_itraits_snoc; [exact Hb | cbn; lia]. }
         unfold any_fix. destruct (_ && _); [|exact H1].
         destruct (alookup (items_name n) (items_fix w ins n v its)); [exact H1|].
-        apply below_itraits_snoc; [exact H1 | cbn; lia]. }
+        apply below_itraits_snoc; [exact H1|].
+        destruct (alookup (items_name n) (class_of w ins)) as [ct|] eqn:Ec; [|cbn; lia].
+        unfold class_of in Ec. pose proof (below_class_lookup w (w_next w) _ _ _ Hcls Ec). lia. }
       destruct (alookup n (i_dict ins)) as [v|] eqn:Ed.
       + split; [lia|]. rewrite inst_oids_split. cbn [i_dict i_itraits]. apply below_app. split.
         * apply below_dict_aset; [exact Hd|]. rewrite value_oids_mutate. eapply below_dict_lookup; eassumption.
@@ -1002,7 +1004,7 @@ Lemma assign_inst_stores w ins n content scalar t :
   = Some (fst (assigned_value t content scalar (w_next w))).
 Proof.
   intros Hr. unfold assign_inst. rewrite Hr. destruct (assigned_value t content scalar (w_next w)) as [v nx]. cbn [fst].
-  destruct (hids ins t n) as [|h hs]; [cbn [fst i_dict]; rewrite alookup_aset, Z.eqb_refl; reflexivity|].
+  destruct (hids w ins t n) as [|h hs]; [cbn [fst i_dict]; rewrite alookup_aset, Z.eqb_refl; reflexivity|].
   destruct (alookup n (i_dict ins)); cbn [fst i_dict]; rewrite alookup_aset, Z.eqb_refl; reflexivity.
 Qed.
 
@@ -1040,7 +1042,7 @@ Qed.
 (* assignment notifies by comparison mode: none = always, identity = unless the very same (scalar) object,
    equality = unless equal *)
 Lemma assign_log_by_mode w ins n content scalar t ov h hs :
-  resolve w ins n = Some t -> hids ins t n = h :: hs -> alookup n (i_dict ins) = Some ov ->
+  resolve w ins n = Some t -> hids w ins t n = h :: hs -> alookup n (i_dict ins) = Some ov ->
   let v := fst (assigned_value t content scalar (w_next w)) in
   let same := (shape_class (v_shape ov) =? shape_class (v_shape v)) && zlist_eqb (vcontent ov) (vcontent v) in
   let calls := map (fun x => (x, n, vcontent ov, vcontent v)) (h :: hs) in
@@ -1491,14 +1493,14 @@ Qed.
 Lemma delete_inst_effect w ins n ov t :
   alookup n (i_dict ins) = Some ov -> resolve w ins n = Some t ->
   let ins' := fst (fst (delete_inst w ins n)) in
-  match hids ins t n with
+  match hids w ins t n with
   | [] => alookup n (i_dict ins') = None /\ alookup n (i_calls ins') = None
   | _ :: _ => alookup n (i_dict ins') = Some (fst (default_value t (w_next w)))
               /\ alookup n (i_calls ins') = (if counted t then Some 1 else None)
   end.
 Proof.
   intros Hd Hr. cbn zeta. unfold delete_inst. rewrite Hd, Hr.
-  destruct (hids ins t n) as [|h hs]; cbn [fst i_dict i_calls].
+  destruct (hids w ins t n) as [|h hs]; cbn [fst i_dict i_calls].
   - rewrite !alookup_aremove, Z.eqb_refl. split; reflexivity.
   - unfold materialise. destruct (default_value t (w_next w)) as [v nx]. cbn [fst i_dict i_calls].
     rewrite alookup_app, alookup_aremove, Z.eqb_refl. cbn [alookup]. rewrite Z.eqb_refl. split; [reflexivity|].
